@@ -192,3 +192,30 @@ def sim_traces(res: TLCResult):
     for fn in sorted(os.listdir(d)):
         out.append(tla.parse_sim_trace(os.path.join(d, fn)))
     return out
+
+
+def run_apalache(module: str, inv: str, cinit: str | None = None, length: int = 1, timeout: int = 600):
+    """Apalache (symbolic, unbounded integers) on specs/<module>.tla. Returns ("ok" | "violation" | "unavailable", text)."""
+    import shutil as _sh
+
+    if _sh.which("apalache-mc") is None:
+        return "unavailable", "apalache-mc not on PATH"
+    work = scratch_dir("vapa_")
+    try:
+        shutil.copy(os.path.join(SPECS, f"{module}.tla"), work)
+        cmd = ["apalache-mc", "check", f"--inv={inv}", f"--length={length}", f"--out-dir={os.path.join(work, 'out')}"]
+        if cinit:
+            cmd.append(f"--cinit={cinit}")
+        cmd.append(f"{module}.tla")
+        try:
+            p = subprocess.run(cmd, cwd=work, capture_output=True, text=True, timeout=timeout)
+        except subprocess.TimeoutExpired:
+            return "unavailable", f"apalache timed out after {timeout}s"
+        out = p.stdout + p.stderr
+        if "The outcome is: NoError" in out:
+            return "ok", out[-600:]
+        if "The outcome is: Error" in out or "violat" in out.lower():
+            return "violation", out[-2500:]
+        return "unavailable", out[-800:]
+    finally:
+        shutil.rmtree(work, ignore_errors=True)
